@@ -26,7 +26,8 @@ namespace internal {
 template <typename T>
 constexpr auto trunc_int(T const x) noexcept -> T
 {
-    return (T(static_cast<llint_t>(x)));
+    // keep the sign of a zero result: trunc(-0.5) is -0.0
+    return x < T(0) ? -T(static_cast<llint_t>(-x)) : T(static_cast<llint_t>(x));
 }
 
 template <typename T>
@@ -38,8 +39,11 @@ constexpr auto trunc_check(T const x) noexcept -> T
             !is_finite(x) ? x
                           :
                           // signed-zero cases
-            etl::numeric_limits<T>::epsilon() > abs(x) ? x
-                                                       :
+            x == T(0) ? x
+                      :
+                      // already integral (and need not fit llint_t)
+            abs(x) >= T(1) / etl::numeric_limits<T>::epsilon() ? x
+                                                               :
                                                        // else
             trunc_int(x)
     );
